@@ -10,6 +10,7 @@ import (
 	"os"
 	"path/filepath"
 	"reflect"
+	"runtime/debug"
 	"sort"
 	"strconv"
 	"strings"
@@ -372,7 +373,7 @@ func RunCase(c *Case, st *Stats) string {
 	if !ok {
 		return "harness: no replayer for check " + c.Check
 	}
-	return fn(c, st)
+	return safeRun(fn, c, st)
 }
 
 // checkRapid is the common driver of a rapid-based check.
@@ -385,10 +386,29 @@ func checkRapid(t *testing.T, property, check, rule string, draw func(rt *rapid.
 		c := draw(rt)
 		c.Property, c.Check = property, check
 		st.Case()
-		if msg := fn(c, st); msg != "" {
+		if msg := safeRun(fn, c, st); msg != "" {
 			Fail(rt, c, "%s", msg)
 		}
 	})
+}
+
+// safeRun runs a check and turns a panic escaping from the library into a violation message
+// (no listed property allows a panic).
+func safeRun(fn func(c *Case, st *Stats) string, c *Case, st *Stats) (msg string) {
+	defer func() {
+		if r := recover(); r != nil {
+			msg = fmt.Sprintf("panic: %v\n%s", r, trimStack(debug.Stack()))
+		}
+	}()
+	return fn(c, st)
+}
+
+func trimStack(b []byte) string {
+	s := string(b)
+	if len(s) > 1500 {
+		s = s[:1500] + "…"
+	}
+	return s
 }
 
 // JSONString renders v for messages and samples (opaque values by type).
